@@ -17,7 +17,7 @@ VARIABLES ck,     \* BADCOOKIE resends so far (cookie_try_count)
 mvars == <<rvars, ck, ed>>
 QID == 1
 
-NewQuery == [t |-> 1, qt |-> 1, api |-> "send", probe |-> FALSE, st |-> "tosend", try |-> 0, ntx |-> 0, to |-> 0, fd |-> 0, srv |-> 0,
+NewQuery == [t |-> 1, qt |-> 1, qc |-> 1, api |-> "send", probe |-> FALSE, st |-> "tosend", try |-> 0, ntx |-> 0, to |-> 0, fd |-> 0, srv |-> 0,
              sentAt |-> 0, dlo |-> 0, dhi |-> 0, tcp |-> FALSE, edns |-> TRUE, reqsrv |-> 0, qsrv |-> 0, noretry |-> FALSE, err |-> "", endst |-> "",
              endrc |-> -1, sentopts |-> TRUE, lname |-> "n", name |-> "n"]
 
